@@ -471,7 +471,7 @@ def damage(rng, stmts):
 BORDER_STRINGS = ["", " ", "a b", "NULL", "null", "Null", "TRUE", "true", "False", "END", "end", "End", "GROUP",
                   "group", "End_Group", "BEGIN_OBJECT", "object", "1", "-5", "1.5", "1e5", "16#FF#", "inf", "nan",
                   "2001-01-01", "2001-001", "10:00", "10:00:60", "x-", "a-\nb", "10 - \n20 km", "x-\t\nrest", "a -  \r\n b", "it's", 'say "hi"', 'x\n"y', 'say "hi"\r\nthere', 'q"\x0bv', "both ' and \"",
-                  "tab\there", "two  blanks", " lead", "trail ", "line1\nline2", "a\r\nb", "semi;colon", "a=b",
+                  "tab\there", "two  blanks", " lead", "trail ", "line1\nline2", "a\r\nb", "first\nEND\nlast", "a\r\n  end\r\nb", "x\nEnd;\ny", "keep\nEND_GROUP\nGROUP = g", "semi;colon", "a=b",
                   "(paren)", "{brace}", "<angle>", "#hash", "/* c */", "*/", "a*", "/x", "caf\xe9", "\xb5m",
                   "snow☃", "x" * 45, "word " * 20, "bell\x07", "esc\x1b[0m", "del\x7f", "nul\x00x", "ctl\x01\x1f", "a-b", "push-broom", "high-resolution", "semi-major-axis", "-lead", "mid - dle", "_under", "under_", "9lives", "ok_name", "N:S", "^PTR"]
 
